@@ -98,13 +98,28 @@ func runC04Virtual(c *c04Case) *c04Obs {
 		release()
 		return obs
 	}
-	col := &c04Collector{recv: map[string][]string{}, want: map[string]interface{}{}, delay: c.Delay}
+	col := &c04Collector{recv: map[string][]string{}, want: map[string]interface{}{}, delay: c.Delay, slowEvery: c.SlowEvery, slowMs: c.SlowMs}
 	ctx, cancel := context.WithCancel(context.Background())
 	var cwg sync.WaitGroup
 	col.consume(ctx, "c2s", sc, c.Consumer, func(ctx context.Context, mux *lime.EnvelopeMux) error { return mux.ListenServer(ctx, sc) }, &cwg)
 	col.consume(ctx, "s2c", cc, c.Consumer, func(ctx context.Context, mux *lime.EnvelopeMux) error { return mux.ListenClient(ctx, cc) }, &cwg)
 	c04Drive(c, cc, sc, col, obs, 10*time.Minute)
-	synctest.Wait() // everything that can be delivered has been
+	synctest.Wait() // everything that can be delivered has been ...
+	if c.SlowEvery > 0 {
+		// ... unless the consumer is pausing: then wait for as long as it keeps making progress
+		for last, idle := -1, 0; idle < 2; {
+			time.Sleep(time.Duration(c.SlowMs+1000) * time.Millisecond)
+			synctest.Wait()
+			col.mu.Lock()
+			n := col.n
+			col.mu.Unlock()
+			if n == last {
+				idle++
+			} else {
+				last, idle = n, 0
+			}
+		}
+	}
 	col.mu.Lock()
 	obs.Recv = col.recv
 	obs.Corrupt = col.corrupt
@@ -171,7 +186,20 @@ func genC04(rt *rapid.T, transports []string) *c04Case {
 	if dirs&2 != 0 {
 		c.S2C = mk("s2c")
 	}
-	if len(c.C2S) > 0 && rapid.IntRange(0, 2).Draw(rt, "pcNoise") == 0 {
+	if strings.HasPrefix(c.Transport, "tcp") && rapid.IntRange(0, 2).Draw(rt, "slow") == 0 {
+		// a consumer that pauses for longer than one or two write polls: senders block half way through an envelope, time out and resume
+		c.SlowEvery = rapid.IntRange(1, 6).Draw(rt, "slowEvery")
+		c.SlowMs = rapid.SampledFrom([]int{5500, 11000, 16000}).Draw(rt, "slowMs")
+		// one sender per direction: a second one would wait for the first on the channel's send lock, and a goroutine
+		// waiting for a lock stops the virtual clock the pause depends on
+		if len(c.C2S) > 1 {
+			c.C2S = c.C2S[:1]
+		}
+		if len(c.S2C) > 1 {
+			c.S2C = c.S2C[:1]
+		}
+	}
+	if c.SlowEvery == 0 && len(c.C2S) > 0 && rapid.IntRange(0, 2).Draw(rt, "pcNoise") == 0 {
 		n := rapid.IntRange(1, 40).Draw(rt, "pcN")
 		for i := 0; i < n; i++ {
 			c.PC = append(c.PC, rapid.IntRange(0, 30).Draw(rt, "pcYields"))
